@@ -102,6 +102,19 @@ func C04(c *Ctx) {
 		c.R.Check(len(bad) == 0 && nread >= 2, "C04-R9", "core: the action-error routing settings are only read", c.P.Pos(step.Pos()), fmt.Sprintf("%d reads, no assignment of Spec.ActionErrorNode / Spec.ActionErrorBranches in package core", nread), strings.Join(bad, "; ")+": the engine changes where a failed action takes the machine (the setting is the spec's, and Step reads it at run time)")
 	}
 	// ------------------------------------------------------------ R1 (consider)
+	// consider with the helpers it may be split into (Branch.try and what it runs stay opaque)
+	considerFns := []*ssa.Function{consider}
+	{
+		skip := map[*ssa.Function]bool{}
+		for _, f := range pkgClosure(try) {
+			skip[f] = true
+		}
+		for _, f := range pkgClosure(consider) {
+			if f != consider && f != step && !skip[f] && prog.PkgOf(f) == "core" {
+				considerFns = append(considerFns, f)
+			}
+		}
+	}
 	var tryCalls []*ssa.Call
 	ssau.Instrs(consider, func(in ssa.Instruction) {
 		if ci, ok := in.(*ssa.Call); ok && ci.Common().StaticCallee() == try {
@@ -196,6 +209,68 @@ func C04(c *Ctx) {
 						// and the function returns v (for the state) from there
 					}
 				}
+				if !ok {
+					// the test may live in a helper that is handed the result and tells whether the loop is over
+					// (`if acc.record(br, to, traces, err) { break }`): on the edge that stays in the loop the helper's
+					// verdict implies that the result was nil
+					for _, b := range consider.Blocks {
+						iff, isIf := b.Instrs[len(b.Instrs)-1].(*ssa.If)
+						if !isIf || !L.Blocks[b] || len(b.Succs) != 2 {
+							continue
+						}
+						for si, s := range b.Succs {
+							if flow.Reachable(s, L.Header, nil) {
+								continue
+							}
+							// s leaves the loop for good: what does the other verdict of the helper say?
+							for _, f := range flow.Expand([]flow.Fact{{Cond: iff.Cond, True: si == 0, If: iff}}) {
+								var cl *ssa.Call
+								ri := 0
+								switch x := f.Cond.(type) {
+								case *ssa.Call:
+									cl = x
+								case *ssa.Extract:
+									if c2, isC := x.Tuple.(*ssa.Call); isC {
+										cl, ri = c2, x.Index
+									}
+								}
+								if cl == nil {
+									continue
+								}
+								h := cl.Common().StaticCallee()
+								inScope := false
+								for _, g := range considerFns {
+									inScope = inScope || (g == h && h != consider)
+								}
+								if !inScope {
+									continue
+								}
+								for ai, a := range cl.Common().Args {
+									if a != v || ai >= len(h.Params) {
+										continue
+									}
+									par := h.Params[ai]
+									isNil := func(b *ssa.BasicBlock, extra []flow.Fact) bool {
+										for _, ft := range append(append([]flow.Fact{}, flow.FactsAt(b)...), extra...) {
+											if bo, isB := ft.Cond.(*ssa.BinOp); isB && bo.X == ssa.Value(par) && ssau.IsNilConst(bo.Y) {
+												if (bo.Op == token.EQL && ft.True) || (bo.Op == token.NEQ && !ft.True) {
+													return true
+												}
+											}
+										}
+										return false
+									}
+									if f.True && falseImplies(h, ri, isNil) {
+										ok = true
+									}
+									if !f.True && trueImplies(h, ri, isNil) {
+										ok = true
+									}
+								}
+							}
+						}
+					}
+				}
 				c.R.Check(ok, "C04-R1", "consider: "+what+" leaves the loop", c.pos(tc), "a non-nil "+what+" ends the loop (later branches are not tried)", "a non-nil "+what+" does not end the branch loop")
 			}
 			leave(to, "next state")
@@ -204,7 +279,24 @@ func C04(c *Ctx) {
 			okRet := false
 			for _, b := range consider.Blocks {
 				if ret, ok := b.Instrs[len(b.Instrs)-1].(*ssa.Return); ok && len(ret.Results) == 4 && !ssau.IsNilConst(ret.Results[0]) {
-					if ret.Results[0] == to {
+					// (the state may come back through a private record that a helper fills: then every state it can hold
+					// at this return other than nil is try's)
+					viaRecord, nState := ret.Results[0] != to, 0
+					if viaRecord {
+						for _, d := range resolveCells(ret.Results[0], consider, considerFns) {
+							if ssau.IsNilConst(d) {
+								continue
+							}
+							nState++
+							if d != to {
+								viaRecord = false
+							}
+						}
+					}
+					if viaRecord && nState == 0 {
+						continue // nil at this return
+					}
+					if ret.Results[0] == to || viaRecord {
 						okRet = true
 					} else {
 						okRet = false
@@ -237,7 +329,17 @@ func C04(c *Ctx) {
 				return true
 			}
 			defs, zero, ok := privateCellDefs(v)
-			if !ok || zero || len(defs) == 0 {
+			if !ok {
+				// ... or of a field of a private record that helpers of consider read and write
+				ds := resolveCells(v, consider, considerFns)
+				for _, d := range ds {
+					if d != ssa.Value(consumer) {
+						return false
+					}
+				}
+				return len(ds) > 0
+			}
+			if zero || len(defs) == 0 {
 				return false
 			}
 			for _, d := range defs {
@@ -246,6 +348,20 @@ func C04(c *Ctx) {
 				}
 			}
 			return true
+		}
+		// isFalse: the constant false, also as the value a private record's field has before it was written
+		isFalse := func(v ssa.Value) bool {
+			ds := []ssa.Value{v}
+			if _, isC := v.(*ssa.Const); !isC {
+				ds = resolveCells(v, consider, considerFns)
+			}
+			for _, d := range ds {
+				cst, isC := d.(*ssa.Const)
+				if !isC || cst.Value == nil || cst.Value.String() != "false" {
+					return false
+				}
+			}
+			return len(ds) > 0
 		}
 		// consumerFact: what the facts say about the branching-type test
 		consumerFact := func(facts []flow.Fact) (known, val bool) {
@@ -264,8 +380,7 @@ func C04(c *Ctx) {
 			}
 			if !consumer.Block().Dominates(b) || consumer.Block() == b && false {
 				// before the flag is known (nil branches): must be false
-				cst, isC := ret.Results[2].(*ssa.Const)
-				c.R.Check(isC && cst.Value != nil && cst.Value.String() == "false", "C04-R3", fmt.Sprintf("consider: return#%d before branching type is read reports not consumed", nret), c.pos(ret), "constant false", "consumed reported without message branching")
+				c.R.Check(isFalse(ret.Results[2]), "C04-R3", fmt.Sprintf("consider: return#%d before branching type is read reports not consumed", nret), c.pos(ret), "constant false", "consumed reported without message branching")
 				nret++
 				continue
 			}
@@ -919,42 +1034,56 @@ func C04(c *Ctx) {
 		}
 		return bo.X == of
 	}
+	// every way the stored bindings can come about (through helper results and parameters), with the branch facts
+	// of that way and the values it passes through
+	ways := chainWays(resBs, bsStores[0].Block(), closure)
+	// wayNonNil: on this way the value is known not to be nil where it is handed on: a non-nil test of a value the
+	// way passes through (or, for the guard's bindings, of another read of the same Execution.Bs)
+	wayNonNil := func(w chainWay) bool {
+		for _, f := range w.facts {
+			bo, isB := f.Cond.(*ssa.BinOp)
+			if !isB || !ssau.IsNilConst(bo.Y) {
+				continue
+			}
+			if !((bo.Op == token.NEQ && f.True) || (bo.Op == token.EQL && !f.True)) {
+				continue
+			}
+			for _, x := range w.chain {
+				if bo.X == x {
+					return true
+				}
+			}
+			if base, is := isFieldLoad(w.leaf, "core", "Execution", "Bs"); is && base == guardExe && isNonNilFact(f, w.leaf) {
+				return true
+			}
+		}
+		return false
+	}
 	okGate := true
 	var why []string
-	for _, d := range deepDefs(resBs, closure) {
+	addWhy := func(s string) {
+		for _, o := range why {
+			if o == s {
+				return
+			}
+		}
+		why = append(why, s)
+	}
+	if len(ways) == 0 {
+		okGate = false
+		addWhy("the result bindings cannot be resolved")
+	}
+	for _, w := range ways {
+		d := w.leaf
 		if ssau.IsNilConst(d) {
 			continue // rejected: filtered by the nil test below
 		}
 		if base, is := isFieldLoad(d, "core", "Execution", "Bs"); is && base == guardExe {
-			// must be under Bs != nil: where it is read, where it is chosen (phi edge), or where it is returned from a helper
-			in := d.(ssa.Instruction)
-			nonnil := false
-			facts := append([]flow.Fact{}, flow.FactsAt(in.Block())...)
-			if in.Parent() == try {
-				facts = append(facts, flow.FactsAt(bsStores[0].Block())...)
-				for _, pe := range phiEdgesWithBlocks(resBs, bsStores[0].Block()) {
-					if pe.v == d {
-						facts = append(facts, flow.FactsAt(pe.b)...)
-					}
-				}
-			}
-			for _, r := range ssau.Referrers(d) {
-				if ph, isPhi := r.(*ssa.Phi); isPhi {
-					for i, e := range ph.Edges {
-						if e == d {
-							facts = append(facts, flow.FactsAt(ph.Block().Preds[i])...)
-						}
-					}
-				}
-			}
-			for _, f := range facts {
-				if isNonNilFact(f, d) {
-					nonnil = true
-				}
-			}
-			if !nonnil {
+			// must be under Bs != nil: where it is read, where it is chosen (phi edge), where it is returned from a
+			// helper, or where the value it became is tested before the state is built
+			if !wayNonNil(w) {
 				okGate = false
-				why = append(why, "guard bindings used without the non-nil test")
+				addWhy("guard bindings used without the non-nil test")
 			}
 			continue
 		}
@@ -963,7 +1092,7 @@ func C04(c *Ctx) {
 				if n, isC := ssau.ConstInt(ia.Index); isC && n == 0 {
 					// element 0 of the match result, only without a guard
 					noGuard := false
-					for _, f := range flow.FactsAt(ld.Block()) {
+					for _, f := range append(append([]flow.Fact{}, flow.FactsAt(ld.Block())...), w.facts...) {
 						if bo, isB := f.Cond.(*ssa.BinOp); isB && ssau.IsNilConst(bo.Y) {
 							if _, is := isFieldLoad(bo.X, "core", "Branch", "Guard"); is && ((bo.Op == token.EQL && f.True) || (bo.Op == token.NEQ && !f.True)) {
 								noGuard = true
@@ -973,27 +1102,173 @@ func C04(c *Ctx) {
 					if fromMatcher(ia.X) && noGuard {
 						continue
 					}
-					why = append(why, fmt.Sprintf("match candidate becomes the result (from matcher=%v, on the guard-less path=%v)", fromMatcher(ia.X), noGuard))
+					addWhy(fmt.Sprintf("match candidate becomes the result (from matcher=%v, on the guard-less path=%v)", fromMatcher(ia.X), noGuard))
 				}
 			}
 		}
 		okGate = false
-		why = append(why, "result bindings may be "+d.Name()+" ("+d.String()+")")
+		addWhy("result bindings may be " + d.Name() + " (" + d.String() + ")")
+	}
+	// a rejecting verdict does not end the guard loop: the loop around the guard is left only when the candidates
+	// are used up, when the guard failed, or when the guard's bindings are not nil
+	if gl, gsite := guardLoopOf(guardCall, closure); gl != nil {
+		var guardErr ssa.Value
+		for _, r := range ssau.Referrers(guardCall) {
+			if ex, ok := r.(*ssa.Extract); ok && ex.Index == 1 {
+				guardErr = ex
+			}
+		}
+		guardOnly := func(v ssa.Value) bool {
+			n := 0
+			for _, d := range deepDefs(v, closure) {
+				if ssau.IsNilConst(d) {
+					continue
+				}
+				if base, is := isFieldLoad(d, "core", "Execution", "Bs"); is && base == guardExe {
+					n++
+					continue
+				}
+				return false
+			}
+			return n > 0
+		}
+		isGuardErr := func(v ssa.Value) bool {
+			for _, d := range deepDefs(v, closure) {
+				if d == guardErr && guardErr != nil {
+					return true
+				}
+			}
+			return false
+		}
+		exits := gl.Exits()
+		sort.Slice(exits, func(i, j int) bool {
+			if exits[i][0].Index != exits[j][0].Index {
+				return exits[i][0].Index < exits[j][0].Index
+			}
+			return exits[i][1].Index < exits[j][1].Index
+		})
+		for _, e := range exits {
+			okExit := false
+			if iff, isIf := e[0].Instrs[len(e[0].Instrs)-1].(*ssa.If); isIf {
+				// the loop's own bound: a comparison of a counter carried by the loop, or the end of a range
+				if bo, isB := iff.Cond.(*ssa.BinOp); isB && (bo.Op == token.LSS || bo.Op == token.GTR || bo.Op == token.LEQ || bo.Op == token.GEQ) {
+					for i, x := range []ssa.Value{bo.X, bo.Y} {
+						if inc, isInc := x.(*ssa.BinOp); isInc && inc.Op == token.ADD {
+							x = inc.X // the range form compares the advanced counter
+						}
+						ph, isPhi := x.(*ssa.Phi)
+						if !isPhi || ph.Block() != gl.Header {
+							continue
+						}
+						if bt, isBasic := ph.Type().Underlying().(*types.Basic); !isBasic || bt.Info()&types.IsInteger == 0 {
+							continue
+						}
+						// ... with the length of a list
+						bound := []ssa.Value{bo.Y, bo.X}[i]
+						isLen := false
+						for _, d := range deepDefs(bound, closure) {
+							cl, isC := d.(*ssa.Call)
+							if !isC {
+								isLen = false
+								break
+							}
+							if bi, isBi := cl.Common().Value.(*ssa.Builtin); !isBi || bi.Name() != "len" {
+								isLen = false
+								break
+							}
+							isLen = true
+						}
+						if isLen {
+							okExit = true
+						}
+					}
+				}
+				if ex, isEx := iff.Cond.(*ssa.Extract); isEx {
+					if _, isNext := ex.Tuple.(*ssa.Next); isNext && ex.Index == 0 {
+						okExit = true
+					}
+				}
+			}
+			for _, f := range flow.EdgeFacts(e[0], e[1]) {
+				bo, isB := f.Cond.(*ssa.BinOp)
+				if !isB || !ssau.IsNilConst(bo.Y) || !((bo.Op == token.NEQ && f.True) || (bo.Op == token.EQL && !f.True)) {
+					continue
+				}
+				if isGuardErr(bo.X) || guardOnly(bo.X) {
+					okExit = true
+				}
+			}
+			if !okExit {
+				okGate = false
+				addWhy("the loop that offers the candidates to the guard (" + c.pos(gsite) + ") can end at " + c.pos(e[0].Instrs[len(e[0].Instrs)-1]) + " although the guard rejected a candidate and others are left: guard bindings used without the non-nil test")
+			}
+		}
+		// ... and an accepting verdict ends it: from the guard round the loop to the guard again, every way passes a
+		// test that finds the guard's bindings nil
+		{
+			nilEdge := func(u, v *ssa.BasicBlock) bool {
+				iff, isIf := u.Instrs[len(u.Instrs)-1].(*ssa.If)
+				if !isIf || len(u.Succs) != 2 || u.Succs[0] == u.Succs[1] {
+					return false
+				}
+				for _, f := range flow.Expand([]flow.Fact{{Cond: iff.Cond, True: u.Succs[0] == v, If: iff}}) {
+					bo, isB := f.Cond.(*ssa.BinOp)
+					if !isB || !ssau.IsNilConst(bo.Y) || !((bo.Op == token.EQL && f.True) || (bo.Op == token.NEQ && !f.True)) {
+						continue
+					}
+					if guardOnly(bo.X) {
+						return true
+					}
+				}
+				return false
+			}
+			start := gsite.Block()
+			seen := map[*ssa.BasicBlock]bool{}
+			stack := []*ssa.BasicBlock{start}
+			again := false
+			for len(stack) > 0 {
+				u := stack[len(stack)-1]
+				stack = stack[:len(stack)-1]
+				for _, v := range u.Succs {
+					if !gl.Blocks[v] || nilEdge(u, v) {
+						continue
+					}
+					if v == start {
+						again = true
+					}
+					if !seen[v] {
+						seen[v] = true
+						stack = append(stack, v)
+					}
+				}
+			}
+			if again {
+				okGate = false
+				addWhy("the loop that offers the candidates to the guard (" + c.pos(gsite) + ") can go on to the next candidate after the guard accepted one: guard bindings used without the non-nil test")
+			}
+		}
 	}
 	c.R.Check(okGate, "C04-R2", "try: result bindings come from the guard (or the single match without a guard)", c.pos(bsStores[0]), "guard's non-nil Bs, or match result #0 when there is no guard", strings.Join(why, "; "))
-	// the nil test before building the state
-	nilTest := false
-	for _, f := range flow.FactsAt(bsStores[0].Block()) {
-		if bo, isB := f.Cond.(*ssa.BinOp); isB && bo.X == resBs && ssau.IsNilConst(bo.Y) && ((bo.Op == token.EQL && !f.True) || (bo.Op == token.NEQ && f.True)) {
-			nilTest = true
+	// the nil test before building the state: on no way do nil bindings reach the literal
+	nilTest := len(ways) > 0
+	for _, w := range ways {
+		if !wayNonNil(w) {
+			nilTest = false
 		}
 	}
 	c.R.Check(nilTest, "C04-R2", "try: nil bindings mean the branch is not followed", c.pos(bsStores[0]), "the next state is built only under 'bs != nil'", "a next state can be built from nil (rejected) bindings")
 	// guard receives the candidates one by one
 	okCand := false
-	if ld, ok := guardCall.Common().Args[1].(*ssa.UnOp); ok {
-		if ia, ok := ld.X.(*ssa.IndexAddr); ok && fromMatcher(ia.X) {
-			okCand = true
+	if cands := deepDefs(guardCall.Common().Args[1], closure); len(cands) > 0 {
+		okCand = true
+		for _, d := range cands {
+			isElem := false
+			if ld, ok := d.(*ssa.UnOp); ok {
+				if ia, ok := ld.X.(*ssa.IndexAddr); ok && fromMatcher(ia.X) {
+					isElem = true
+				}
+			}
+			okCand = okCand && isElem
 		}
 	}
 	c.R.Check(okCand, "C04-R2", "try: guard is given the match candidates", c.pos(guardCall), "guard executes with an element of the match result", "the guard does not receive the bindings produced by the pattern match")
@@ -1125,6 +1400,140 @@ func C04(c *Ctx) {
 		okT, whyT = false, "no @variable target resolution found"
 	}
 	c.R.Check(okT, "C04-R5", "try: target resolved from the result bindings", c.pos(nnStores[0]), "NodeName is Branch.Target or a string looked up in the bindings stored as the state's bindings", "the next node is not resolved from the bindings that become the next state's bindings: "+whyT)
+}
+
+// chainWay is one way a value can come about: the defining leaf, the branch facts that hold along that way and the
+// values the way passes through (the value itself first).
+type chainWay struct {
+	leaf  ssa.Value
+	facts []flow.Fact
+	chain []ssa.Value
+}
+
+// chainWays resolves v, used in block at, like deepDefs and keeps for every leaf the facts of the way taken: the
+// facts at the use, of each phi edge, at the return of an in-scope helper that produced the value, and at the call
+// site that handed it to a helper as an argument.  A return of a helper that the facts known so far rule out (a fact
+// on another result of the same call) is not followed.
+func chainWays(v ssa.Value, at *ssa.BasicBlock, scope []*ssa.Function) []chainWay {
+	inScope := map[*ssa.Function]bool{}
+	for _, f := range scope {
+		inScope[f] = true
+	}
+	var out []chainWay
+	var rec func(v ssa.Value, facts []flow.Fact, chain []ssa.Value)
+	rec = func(v ssa.Value, facts []flow.Fact, chain []ssa.Value) {
+		if v == nil || len(chain) > 24 || len(out) > 256 {
+			return
+		}
+		for _, x := range chain {
+			if x == v {
+				return // a cycle (loop-carried value): the other edges of the phi are the ways in
+			}
+		}
+		chain = append(chain[:len(chain):len(chain)], v)
+		with := func(extra []flow.Fact) []flow.Fact {
+			return append(facts[:len(facts):len(facts)], extra...)
+		}
+		returnsOf := func(cl *ssa.Call, idx int) bool {
+			sc := cl.Common().StaticCallee()
+			if sc == nil || sc.Blocks == nil || !inScope[sc] {
+				return false
+			}
+			known := flow.Expand(append([]flow.Fact{}, facts...))
+			for _, b := range sc.Blocks {
+				if ret, ok := b.Instrs[len(b.Instrs)-1].(*ssa.Return); ok && idx < len(ret.Results) {
+					if !feasibleReturn(cl, ret, known) {
+						continue
+					}
+					rec(ret.Results[idx], with(flow.FactsAt(b)), chain)
+				}
+			}
+			return true
+		}
+		switch x := v.(type) {
+		case *ssa.Phi:
+			for i, e := range x.Edges {
+				rec(e, with(flow.EdgeFacts(x.Block().Preds[i], x.Block())), chain)
+			}
+			return
+		case *ssa.ChangeType:
+			rec(x.X, facts, chain)
+			return
+		case *ssa.MakeInterface:
+			rec(x.X, facts, chain)
+			return
+		case *ssa.ChangeInterface:
+			rec(x.X, facts, chain)
+			return
+		case *ssa.Call:
+			if x.Common().Signature().Results().Len() == 1 && returnsOf(x, 0) {
+				return
+			}
+		case *ssa.Extract:
+			if cl, ok := x.Tuple.(*ssa.Call); ok && returnsOf(cl, x.Index) {
+				return
+			}
+		case *ssa.Parameter:
+			fn := x.Parent()
+			idx := -1
+			for i, p := range fn.Params {
+				if p == x {
+					idx = i
+				}
+			}
+			sites := callSitesOf(fn, scope)
+			if idx >= 0 && len(sites) > 0 && len(scope) > 0 && fn != scope[0] {
+				n := 0
+				for _, s := range sites {
+					if args := s.Common().Args; idx < len(args) {
+						n++
+						rec(args[idx], with(flow.FactsAt(s.Block())), chain)
+					}
+				}
+				if n > 0 {
+					return
+				}
+			}
+		}
+		// what deepDefs can see through in one more step (variable cells, captured variables, bound receivers)
+		ds := deepDefs(v, scope)
+		if len(ds) == 1 && ds[0] == v {
+			out = append(out, chainWay{v, facts, chain})
+			return
+		}
+		if len(ds) == 0 {
+			out = append(out, chainWay{v, facts, chain})
+			return
+		}
+		for _, d := range ds {
+			if d == v {
+				out = append(out, chainWay{v, facts, chain})
+				continue
+			}
+			rec(d, facts, chain)
+		}
+	}
+	rec(v, append([]flow.Fact{}, flow.FactsAt(at)...), nil)
+	return out
+}
+
+// guardLoopOf: the innermost loop in which the given call is executed — in its own function, or (when that function
+// has no loop around it) around the only place from which that function is called inside scope, through static
+// calls and called method values.  Also returns the instruction inside the loop that leads to the call.
+func guardLoopOf(call ssa.Instruction, scope []*ssa.Function) (*flow.Loop, ssa.Instruction) {
+	in := call
+	for depth := 0; depth < 6; depth++ {
+		f := in.Parent()
+		if L := flow.InnermostLoop(flow.Loops(f), in.Block()); L != nil {
+			return L, in
+		}
+		sites := callSitesOf(f, scope)
+		if len(sites) != 1 {
+			return nil, nil
+		}
+		in = sites[0]
+	}
+	return nil, nil
 }
 
 // patternlessOnly: every path from entry to b that avoids `avoid` passes an edge on which Branch.Pattern is nil.
